@@ -543,4 +543,61 @@ EXTRA = [
                 exc_class, exc, tb = task_result[1]""", 'force flag is not part of the rule'),
     M('M-C15e-sorted-results', 'mapproxy/cache/tile.py', "for layer in async_.imap(get_map_from_source, self.sources):",
       "for layer in sorted(async_.imap(get_map_from_source, self.sources), key=id):", 'C15.e'),
+    # ---------------------------------------------------------------- C20
+    M('M-C20a-revert-D5-wmts', 'mapproxy/service/wmts.py', """        if tile.cacheable:
+            resp.cache_headers(tile.timestamp, etag_data=(tile.timestamp, tile.size),
+                               max_age=self.max_tile_age)
+        else:
+            resp.cache_headers(no_cache=True)""", """        resp.cache_headers(tile.timestamp, etag_data=(tile.timestamp, tile.size),
+                           max_age=self.max_tile_age)""", 'C20.a', 'revert of fix D5'),
+    M('M-C20a-conditional-first', 'mapproxy/service/kml.py', """        if tile.cacheable:
+            resp.cache_headers(tile.timestamp, etag_data=(tile.timestamp, tile.size),
+                               max_age=self.max_tile_age)
+        else:
+            resp.cache_headers(no_cache=True)
+        resp.make_conditional(map_request.http)""", """        resp.make_conditional(map_request.http)
+        if tile.cacheable:
+            resp.cache_headers(tile.timestamp, etag_data=(tile.timestamp, tile.size),
+                               max_age=self.max_tile_age)
+        else:
+            resp.cache_headers(no_cache=True)""", 'C20.a'),
+    M('M-C20a-tms-always-cacheable', 'mapproxy/service/tile.py', """        if tile.cacheable:
+            resp.cache_headers(tile.timestamp, etag_data=(tile.timestamp, tile.size),
+                               max_age=self.max_tile_age)
+        else:
+            resp.cache_headers(no_cache=True)""", """        if tile.cacheable or True:
+            resp.cache_headers(tile.timestamp, etag_data=(tile.timestamp, tile.size),
+                               max_age=self.max_tile_age)
+        else:
+            resp.cache_headers(no_cache=True)""", 'C20.a'),
+    M('M-C20a-etag-mixed-objects', 'mapproxy/service/wmts.py', """            resp.cache_headers(tile.timestamp, etag_data=(tile.timestamp, tile.size),
+                               max_age=self.max_tile_age)""", """            resp.cache_headers(tile.timestamp, etag_data=(tile.timestamp, tile_layer.grid.tile_size),
+                               max_age=self.max_tile_age)""", 'C20.a'),
+    E('E-C20a-negated-branches', 'mapproxy/service/wmts.py', """        if tile.cacheable:
+            resp.cache_headers(tile.timestamp, etag_data=(tile.timestamp, tile.size),
+                               max_age=self.max_tile_age)
+        else:
+            resp.cache_headers(no_cache=True)""", """        if not tile.cacheable:
+            resp.cache_headers(no_cache=True)
+        else:
+            resp.cache_headers(tile.timestamp, etag_data=(tile.timestamp, tile.size),
+                               max_age=self.max_tile_age)""", 'swapped branches'),
+    M('M-C20b-inm-default-none', 'mapproxy/response.py', "environ.get('HTTP_IF_NONE_MATCH', -1)", "environ.get('HTTP_IF_NONE_MATCH', None)", 'C20.b'),
+    M('M-C20b-ims-ge', 'mapproxy/response.py', "if timestamp is not None and self._timestamp <= timestamp:",
+      "if timestamp is not None and self._timestamp >= timestamp:", 'C20.b'),
+    M('M-C20b-unparsed-date-304', 'mapproxy/response.py', "if timestamp is not None and self._timestamp <= timestamp:",
+      "if timestamp is None or self._timestamp <= timestamp:", 'C20.b'),
+    E('E-C20b-swapped-operands', 'mapproxy/response.py', "if timestamp is not None and self._timestamp <= timestamp:",
+      "if timestamp is not None and timestamp >= self._timestamp:", 'swapped operands'),
+    E('E-C20b-strict', 'mapproxy/response.py', "if timestamp is not None and self._timestamp <= timestamp:",
+      "if timestamp is not None and self._timestamp < timestamp:", 'strictly older is sound too'),
+    M('M-C20c-etag-size-only', 'mapproxy/response.py', "hash_src = ''.join((str(x) for x in etag_data)).encode('ascii')",
+      "hash_src = str(etag_data[1]).encode('ascii')", 'C20.c'),
+    M('M-C20c-no-store-dropped', 'mapproxy/response.py', "self.headers['Cache-Control'] = 'no-cache, no-store'", "self.headers['Cache-Control'] = 'no-cache'", 'C20.c'),
+    M('M-C20d-response-size-zero', 'mapproxy/service/tile.py', "        self.size = tile.size\n        self.cacheable = tile.cacheable", "        self.size = 0\n        self.cacheable = tile.cacheable", 'C20.d'),
+    M('M-C20e-error-cacheable', 'mapproxy/exception.py', """            resp = Response('internal error: %s' % self.msg, status=500)
+        resp.cache_headers(no_cache=True)
+        return resp""", """            resp = Response('internal error: %s' % self.msg, status=500)
+            resp.cache_headers(no_cache=True)
+        return resp""", 'C20.e', 'no-store only on one branch'),
 ]
